@@ -40,6 +40,7 @@ def run(ck, fb):
     r20e(ck, fb)
     r20f(ck, fb)
     r20g(ck, fb)
+    r20h(ck, fb)
 
 
 def r20a(ck, fb):
@@ -467,3 +468,35 @@ def r20g(ck, fb):
                        'chunk (a snapshot header with some 15-35 node addresses exceeds 1024 bytes) makes the whole stream unreadable',
                        'None leads back to a read')
     ck.floor('R20g', 'chunk consumers with a None outcome', n, 5)
+
+
+def r20h(ck, fb, R='R20h'):
+    ck.rule(R, 'appending a chunk keeps the unread bytes: every path through MessageBufReader::append_next_buf carries the bytes of [start, end) to the '
+               'front (move_data_to_start / copy_within / drain) before the new chunk is copied behind them, or has established start == end; `end` '
+               'is never set to a literal. Whether a record is "pending" (next_len) says nothing about unread bytes: a length prefix that is split by '
+               'the chunk boundary is unread and not pending, dropping it mis-frames every record that follows')
+    b = ck.body(PU + 'MessageBufReader::append_next_buf', R)
+    if not b:
+        return
+    carry = [s for x in util.region(fb, b) for s in x.calls(r'protobuf_utils::move_data_to_start$|slice::<impl \[T\]>::copy_within|Vec::<T, A>::drain$|ptr::copy$')
+             if x is b] + [s for s in b.sites if util._local_target(b, s) is not None and
+                           any(y.calls(r'protobuf_utils::move_data_to_start$|slice::<impl \[T\]>::copy_within|Vec::<T, A>::drain$') for y in util.region(fb, util._local_target(b, s), 1))]
+    ck.floor(R, 'carry-to-front steps in append_next_buf', len(carry), 1)
+    esc = set()
+    for (s0, d0, lab0, t0) in cfg.switch_edges(b):
+        desc = cfg.describe_operand(b, t0['discr'])
+        if desc['k'] == 'bin' and desc['op'] in ('Eq', 'Ne', 'Ge', 'Le'):
+            fa = cfg.origin_fields(b, desc['a'])[-1:] + cfg.origin_fields(b, desc['b'])[-1:]
+            if sorted(fa) == ['end', 'start']:
+                pol = cfg.edge_polarity(t0, lab0)
+                if (desc['op'] in ('Eq', 'Ge') and pol is True) or (desc['op'] == 'Ne' and pol is False):
+                    esc.add((s0, d0, lab0))
+    free = cfg.reach_from(b, [0], blocked_blocks={s.bb for s in carry}, blocked_edges=esc)
+    leak = [r for r in b.return_blocks() if r in free]
+    ck.require(not leak, R, 'append_next_buf:unread-bytes-carried', b.where(leak[0]) if leak else b.where(),
+               'a chunk can be appended without the unread bytes of the buffer having been carried to the front (and without start == end being '
+               'known): bytes of a record - or of a length prefix cut by the chunk boundary - are dropped, the decoded records depend on the chunking',
+               'carried on every path')
+    lit = [(bb, st) for (o, f, bb, st) in b.field_writes() if f == 'end' and st['rv']['k'] == 'use' and 'c' in st['rv']['op']]
+    ck.require(not lit, R, 'append_next_buf:end-not-literal', b.where(lit[0][0]) if lit else b.where(),
+               '`end` is set to a literal in append_next_buf: whatever lay between start and end is forgotten')
